@@ -4,7 +4,7 @@
    `run false` / `stop_loop false` = the legacy code, kept for the refuted statements. *)
 From Coq Require Import NArith ZArith List Bool Arith.
 Import ListNotations.
-Require Import UV.C04.Model UV.C04.Proofs UV.C04.ProofsLazy UV.C04.ProofsLive UV.C04.Compose UV.C04.ProofsDecode.
+Require Import UV.C04.Model UV.C04.Proofs UV.C04.ProofsLazy UV.C04.ProofsLive UV.C04.Compose UV.C04.ProofsDecode UV.C04.ProofsMulti.
 
 (* One thread stores the records `recs` (store by store, switching / re-using / growing / shrinking
    its ring of buffers; `start true`: beginning with its set-up by the first hook call, prepare_shmem_buffer);
@@ -29,6 +29,28 @@ Theorem C04_prefix_exact : forall setup cap recs sched,
   exists rest, Matches (done s) (file (finish s)) /\ recs = done s ++ rest.
 Proof. exact prefix_general_now. Qed.
 Print Assumptions C04_prefix_exact.
+
+(* "for every thread": any number of threads, each with its own ring of buffers and data file, one message
+   pipe, one shmem_list and one buf_write_list in the recorder, per-tid writers; any interleaving of all of
+   them; a kill / end of the recording at any point: every thread's data file consists of exactly the records
+   that thread stored completely, in order (proved by showing that one thread's view of any run of the whole
+   system is a run of the single-thread LTS and that the end-of-recording sequence commutes with that view) *)
+Theorem C04_prefix_every_thread : forall cap recss sched t,
+  t < length recss ->
+  let Mk := mrun true cap sched (minit recss) in
+  match_recs (mdone t Mk) (mfile t (mfinish Mk)) = true
+  /\ (exists rest, nth t recss [] = mdone t Mk ++ rest)
+  /\ ok_prefix (nth t recss []) (mfile t (mfinish Mk)) = true.
+Proof. exact multi_prefix. Qed.
+Print Assumptions C04_prefix_every_thread.
+
+Theorem C04_every_thread_prefix_of_its_execution : forall cap opss sched t,
+  t < length opss ->
+  wf_ops [] (nth t opss []) = true ->
+  let Mk := mrun true cap sched (minit (map (fun ops => concat (snd (ops_run [] ops))) opss)) in
+  exists k, match_recs (firstn k (eager [] (nth t opss []))) (mfile t (mfinish Mk)) = true.
+Proof. exact multi_killed_trace_is_prefix_of_execution. Qed.
+Print Assumptions C04_every_thread_prefix_of_its_execution.
 
 (* both variants at once: the file is the stored records plus `extra` (empty for the code as it is) *)
 Theorem C04_prefix_general : forall setup single cap recs sched,
